@@ -42,3 +42,11 @@ Theorem C05_builder_flags : forall src tgt,
   declared_ro (with_proc tgt false) = true /\ declared_ro (with_proc tgt true) = false.
 Proof. exact builder_flags. Qed.
 Print Assumptions C05_builder_flags.
+
+(** masked paths reveal nothing when the container has /dev/null; without it every mask is silently skipped (known finding) *)
+Theorem C05_masks_applied : forall k, mask_one true k <> MExposed.
+Proof. exact masks_applied. Qed.
+Print Assumptions C05_masks_applied.
+Theorem C05_masks_skipped_without_dev_null : forall k, mask_one false (Some k) = MExposed.
+Proof. exact masks_skipped_without_dev_null. Qed.
+Print Assumptions C05_masks_skipped_without_dev_null.
